@@ -543,6 +543,8 @@ def check(prog: Program, rep):
     plumb.node_expansion_fill_rule(prog, RuleProxy(rep, "C11.R6"), "C10.R8")
     plumb.ignore_list_accumulates(prog, RuleProxy(rep, "C11.R6"), "C10.R8")
     _ns.arity_rule(prog, RuleProxy(rep, "C11.R6"), "C01.R5")
+    from rules.plumb import fill_in_uses_global_terminals
+    fill_in_uses_global_terminals(prog, rep, "C11.R6")
     plumb.node_expansion_length_rule(prog, RuleProxy(rep, "C11.R6"), "C10.R8")
     plumb.percentile_rules(prog, RuleProxy(rep, "C11.R6"), "C10.R8")
 
